@@ -6,7 +6,7 @@ OpsV == {"GoNew", "Sentinel", "CtxDeadline", "Errno", "New", "Newf", "NewfW", "P
          "AssertionFailedf", "ULeaf", "Wrap", "Wrapf", "WithMessage", "WithStack", "WithHint",
          "WithDetail", "WithSafeDetails", "WithTelemetry", "WithDomain", "WithIssueLink",
          "WithContextTags", "WithAssertionFailure", "Mark", "WithSecondaryError", "CombineErrors",
-         "Handled", "HandledWithMessage", "HandledInDomain",
+         "Handled", "HandledWithMessage", "HandledInDomain", "EnsureNotInDomain",
          "HandleAsAssertionFailure", "NewAssertionErrorWithWrappedErrf", "WrapWithHTTPCode",
          "WrapWithGrpcCode", "GoWrap", "PkgWithMessage", "PkgWithStack", "PkgWrap", "OsPathError",
          "OsLinkError", "OsSyscallError", "UWrap", "Join", "GoJoin", "GoWrap2", "Hop"}
